@@ -78,6 +78,13 @@ def gen(rng, tier):
                     else:
                         ws = [w.upper() if i == 3 else w for i, w in enumerate(ws)]
                     yield Case("mondec", [rng.choice([lang, "auto"]), tx(" ".join(ws))], "neg-mon")
+                    if ck:
+                        # the checksum word is never looked up in the list when the language is given: a near miss of it
+                        # (same unique prefix, not a list word; a list word with the same prefix length; wrong case) must be refused
+                        w2 = s.split(" ")
+                        for near in (w2[-1] + "zz", w2[-1][:-1], w2[-1] + w2[-1][-1], w2[-1].capitalize()):
+                            if near and near != w2[-1]:
+                                yield Case("mondec", [lang, tx(" ".join(w2[:-1] + [near]))], "neg-mon-checksum-word")
         for sz in (0, 4, 15, 17, 24, 33):
             yield Case("monenc", [lang, hx(bytes(sz)), 1], "neg-mon-entlen")
     words = mon_words("ENGLISH")
